@@ -185,6 +185,10 @@ package ocimem
 //@     hasManifest(r, repoName, digest.FromBytes(data)) &&
 //@     string(r.repos[repoName].manifests[digest.FromBytes(data)].data) == string(data) &&
 //@     r.repos[repoName].manifests[digest.FromBytes(data)].mediaType == mediaType
+// (the registry keeps a copy of its own, not the caller's buffer: the slice
+// in the local `data`, which is what is stored (stored-under-its-digest), has
+// a backing array allocated here - the one thing about aliasing this check decides)
+//@   ensures[keeps-its-own-copy-of-the-bytes] result.1 == nil && !old(alreadyTagged(r, repoName, tag)) ==> ownCopy(data)
 //@   ensures[tag-bound-to-it] result.1 == nil && tag != "" ==> hasTag(r, repoName, tag) &&
 //@     r.repos[repoName].tags[tag].Digest == digest.FromBytes(data) && r.repos[repoName].tags[tag].MediaType == mediaType
 //@   ensures[references-checked-before-storing] result.1 == nil && !old(alreadyTagged(r, repoName, tag)) ==>
